@@ -11,7 +11,7 @@ class P(vlib.Prop):
             "filter: one candidate (own version + provides) through the real filterPackages, the resolver's operator dispatch: equal versions spelled differently under every operator, "
             "neighbouring versions, provided versions, malformed versions; "
             "soname: a so: provide against a so: constraint, both through ResolvePackageNameVersionPin (the 0. rescaling of versions without a release suffix): full grid of 5 versions x {none,-r0,-r1,-r3,-r10} on both sides "
-            "under every operator - same-kind pairs must compare as their versions do -, neighbouring versions, malformed versions; "
+            "under every operator - same-kind pairs must compare as their versions do (regression replays of the fixed defect C03-F2 included) -, neighbouring versions, malformed versions; "
             "pins: candidate LISTS (0-5 candidates in three repositories, pinned to none/edge/local/testing, one in five disqualified, optional provides) through the real filterPackages with the dq map, "
             "allowPin, preferPin and an installed package (the same URL as a candidate, or another), under every operator and for bare names, plus malformed versions: whoever passes must pass by a version the order accepts, "
             "an unpinned and not disqualified candidate passes exactly when the order says so, nothing disqualified passes, input order is kept. Non-trivial = non-empty / a != b; distinct = distinct case terms.")
@@ -39,14 +39,14 @@ class P(vlib.Prop):
                   "stands in the spec's relation to the required one, whatever the spelling (c03_filter_follows_order, c03_filter_own_version, c03_filter_edges); over a candidate list with the dq map, allowPin/preferPin and the installed package "
                   "the function is that version filter followed by 'not disqualified and not rejected by the pin rule', in input order - pins and dq only remove (c03_filter_list_is_version_filter, c03_filter_pins_only_remove). "
                   "Shared-library names, for ALL names and version strings: '0.'+V is accepted like V and denotes V's tuple with one more leading 0, which changes neither the order nor ~ when done on both sides (c03_zero_dot_prefix); "
-                  "the regenerated -r\\d+$ accepts exactly 'ends in -r and digits' (c03_release_suffix); so:NAME<op>V resolves to its parts with V moved to 0.V exactly when the operator contains '=' and V has no release suffix "
-                  "(c03_soname_resolve); the verdict on a so: provide in general, mixed kinds included (c03_soname_verdict); for =, >=, <= on versions of the same kind it is the spec's operator on the two versions (c03_soname_scale); "
-                  "for >, <, ~ the constraint is not rescaled, and against a constraint whose first component is >= 1 the versions do not matter at all - finding C03-F2 for all inputs (c03_soname_scale_refuted_for_all, concrete witness "
-                  "c03_soname_scale_refuted). The repair of C03-F2 (fixes/C03-F2.patch, not applied) is evaluated on a model of the repaired code: byte-for-byte the same rewrite for =, >=, <= and for strings without operators "
-                  "(c03_soname_repair_conservative), and all six operators then follow the order (c03_soname_repair_follows_order). Correspondence compares every parsed field, every comparison, every SatisfiedBy verdict and every filterPackages result.")
+                  "the regenerated -r\\d+$ accepts exactly 'ends in -r and digits' (c03_release_suffix); goextract reads HOW the so: block finds the start of the version (so_rewrite_shape: the scan over the run of operator characters since "
+                  "fix C03-F2, commit 0f275a6; strings.Cut at '=' before) and the model interprets that shape (c03_soname_shape); so:NAME<op>V resolves to its parts with V moved to 0.V exactly when V has no release suffix, under every operator "
+                  "(c03_soname_resolve); the verdict on a so: provide scales both sides by the same rule and on versions of the same kind is the spec's operator on the two versions, for all six operators (c03_soname_scale). "
+                  "The repaired defect stays stated on the HYPOTHETICAL old shape (Model/SonameShapes.v): witness and for-all form of 'operators without = were not rescaled' (c03_soname_old_shape_refuted, c03_soname_old_shape_refuted_for_all), "
+                  "and the fix left =, >=, <= and operator-free strings byte for byte alone (c03_soname_fix_conservative). Correspondence compares every parsed field, every comparison, every SatisfiedBy verdict and every filterPackages result.")
     level_note = ("trusted: Coq kernel, goextract (regex AST, constants, switch tables), harness; modelled not verified: control flow of ParseVersion/CompareVersions/includesVersion/"
                   "ResolvePackageNameVersionPin (hand model, differential testing), Go regexp engine")
     modelled_not_verified = ("version.go control flow is modelled by hand (filterPackages' loop with dq/pins/installed included: Model/VersionFilterPins.v; a candidate's URL is an observed input); "
-                             "constants, switch tables and regexes are regenerated; Model/SonameFixed.v models a proposed repair, not the code")
+                             "constants, switch tables and regexes are regenerated; Model/SonameShapes.v's so_rewrite_old / resolve_constraint_old are the hypothetical old shape of the so: block, not the code")
 
 PROP = P()
